@@ -137,11 +137,17 @@ Proof.
   rewrite (H k H0). reflexivity.
 Qed.
 
-Lemma iif_loop_nil R sched l added : r_iif R = [] -> iif_loop R sched l added = l.
+Lemma iif_visit_nil R j added : r_iif R = [] -> iif_visit R j added = ([], added).
+Proof. intros E. unfold iif_visit. rewrite E. reflexivity. Qed.
+
+Lemma iif_loop_nil R : r_iif R = [] -> forall fuel i l added,
+  iif_loop fuel R i l added = Ok l \/ iif_loop fuel R i l added = OutOfFuel.
 Proof.
-  intros E. unfold iif_loop.
-  assert (G : forall st, fold_left (fun st key => iif_visit R key st) sched st = st).
-  { induction sched as [|key s IH]; intros st; [reflexivity|]. simpl. rewrite <- (IH st) at 2. f_equal.
-    unfold iif_visit. destruct st as [d a]. destruct (alookup key a); [|reflexivity]. rewrite E. reflexivity. }
-  rewrite G. reflexivity.
+  intros E. induction fuel as [|f IH]; intros i l added; cbn [iif_loop].
+  - destruct (nth_error l i); [right | left]; reflexivity.
+  - destruct (nth_error l i) as [j|]; [|left; reflexivity].
+    rewrite (iif_visit_nil R j added E), app_nil_r. apply IH.
 Qed.
+
+Lemma iif_loop_nil_ok R fuel i l added r : r_iif R = [] -> iif_loop fuel R i l added = Ok r -> r = l.
+Proof. intros E H. destruct (iif_loop_nil R E fuel i l added) as [G|G]; rewrite G in H; [inversion H; reflexivity | discriminate]. Qed.
